@@ -213,7 +213,7 @@ def units(tier):
                 continue
             cats.append(("s1 %s %s" % (kind, label), ["s1", kind, label]))
     cats += [("map %s->%s" % (k, v), ["s1map", k, v]) for k, v in (("int32", "int32"), ("string", "message"), ("bool", "bytes"))]
-    cats += [("s2 " + n, ["s2", n]) for n in ("oneofs", "nested", "optionals", "wrappers", "mixed", "packed", "emptymsg")]
+    cats += [("s2 " + n, ["s2", n]) for n in ("oneofs", "nested", "optionals", "wrappers", "mixed", "packed", "emptymsg", "nested-oneof")]
     for name, c in cats:
         u.append(("fresh[%s]" % name, h_fresh, {"cat": c}))
         for way in WAYS:
